@@ -154,7 +154,24 @@ def mutate(rng, text, other):
 def gen_nesting(rng):
     # around the parser's own nesting limits (128 blocks, 400 expression levels) and far beyond them
     d = rng.choice([1, 2, 5, 10, 20, 50, 100, 127, 128, 129, 150, 200, 399, 400, 401, 1000, 3000, 20000])
-    k = rng.randrange(12)
+    k = rng.randrange(16)
+    if k >= 12:
+        # keyword operators written directly in front of a parenthesis, nested in themselves, and mixed with calls and
+        # unary minus: a look-ahead that re-parses its operand doubles the work per level
+        d = min(d, rng.choice([8, 16, 24, 32, 48, 64, 120, 300]))
+        if k == 12:
+            kw = rng.choice(["NOT", "NOT ", "-", "- ", "1 AND", "1 OR", "7 MOD", "2 *", "LEN(STR$", "NOT(-"])
+            if kw == "LEN(STR$":
+                return "PRINT " + "LEN(STR$(" * d + "1" + "))" * d + "\n"
+            if kw == "NOT(-":
+                return "PRINT " + "NOT(-(" * d + "1" + "))" * d + "\n"
+            return "PRINT " + (kw + "(") * d + "1" + ")" * d + "\n"
+        if k == 13:
+            ops = ["NOT(", "-(", "1 AND(", "1 OR(", "(", "3 MOD(", "NOT (", "1 < ("]
+            return "X = " + "".join(rng.choice(ops) for _ in range(d)) + "1" + ")" * d + "\n"
+        if k == 14:
+            return "IF " + "NOT(" * d + "A" + ")" * d + " THEN PRINT 1\n" + "WHILE " + "NOT(" * d + "A" + ")" * d + "\nWEND\n"
+        return "SELECT CASE " + "-(" * d + "1" + ")" * d + "\nCASE " + "NOT(" * d + "1" + ")" * d + " TO " + "(" * d + "2" + ")" * d + "\nEND SELECT\n"
     if k == 0:
         return "PRINT " + "(" * d + "1" + ")" * d + "\n"
     if k == 1:
@@ -316,7 +333,7 @@ def shard(ctx):
     texts = corpus.load()
     n_total = ctx.params["n"]
     n = n_total // ctx.n
-    plan = [("bytes", 0.12), ("soup", 0.22), ("mutation", 0.40), ("nesting", 0.03), ("semantic", 0.23)]
+    plan = [("bytes", 0.12), ("soup", 0.22), ("mutation", 0.395), ("nesting", 0.035), ("semantic", 0.23)]
     ops_per_char = []
 
     def one(kind, text):
